@@ -131,6 +131,7 @@ def _dispatch_job(job):
 def _retry_job(job):
     T, N, k, delta = job[:4]  # reply leaves `delta` s after the (k+1)-th transmission (k = 0..N), or k = None: never
     backlog = job[4] if len(job) > 4 else 0  # other datagrams already waiting in the send queue (20 ms each)
+    refuse = job[5] if len(job) > 5 else 0  # the OS refuses the first `refuse` sends of the request (sendto raises)
     lib.reset_library()
     sock = GeckoUdpSocket()
     w, e = _engine(sock)
@@ -155,6 +156,16 @@ def _retry_job(job):
                                                   wire.frame(SPA_ID, b"IOSx", wire.svers((1, 2, 3), (4, 5, 6))), PEER))
 
     w.net.send = send
+    if refuse:
+        left = [refuse]
+
+        def fail_send(data, dest):
+            if b"AVERS" in data and left[0] > 0:
+                left[0] -= 1
+                return True
+            return False
+
+        e.mock.fail_send = fail_send
     with stepped.patched_clock(w.clock):
         h = GeckoVersionProtocolHandler.request(1, parms=parms)
         h._timeout_in_seconds = T
@@ -179,6 +190,18 @@ def _retry_job(job):
             tx_at_removal = tx
     tx = sum(1 for (t, d, dest) in e.mock.sent if b"AVERS" in d)
     why = None
+    if refuse:
+        # refused sends are attempts too: an unanswered request is attempted 1+N times in all and then removed
+        att = tx + len(e.mock.refused)
+        case = f"T={T} N={N} unanswered, the first {refuse} send(s) refused by the OS"
+        logged = [r for r in lib.LOG.records if "Exception during send processing" not in str(r)]
+        if h in sock._receive_handlers:
+            return ("not-removed", f"{case}: handler still registered at the end ({att} attempts)")
+        if att != 1 + N:
+            return ("retransmissions", f"{case}: {att} send attempts ({tx} on the wire), expected exactly {1 + N}")
+        if logged:
+            return ("engine", f"{case}: errors {logged[:2]}")
+        return None
     case = f"T={T} N={N} reply={'never' if k is None else f'{delta}s after transmission {k+1}'}" + (
         f" behind {backlog} queued datagrams" if backlog else "")
     if h in sock._receive_handlers:
@@ -437,6 +460,8 @@ def run(ctx):
             for d in ((0.002, 0.02, 0.045, 0.06) if k is not None else (0.0,))]
     # longer budgets, unanswered or answered late in the budget (time-outs shorter than / comparable with a throttle slot)
     jobs += [(T, N, k, 0.002) for T in (0.005, 0.01, 0.02, 0.03, 0.05) for N in (4, 5, 6, 8) for k in (None, N - 1, N)]
+    # the OS refuses the first send(s) of the request
+    jobs += [(T, N, None, 0.0, 0, k) for T in (0.05, 1.0) for N in (1, 2, 3) for k in (1, 2) if k <= N]
     # the request waits behind a send backlog (shorter and longer than its time-out)
     jobs += [(T, N, k, 0.002, B) for T in (0.03, 0.05, 1.0) for N in (1, 2) for k in (None, N) for B in (1, 3, 10)]
     for why, job in zip(core.pmap(ctx, _retry_job, jobs, chunksize=1), jobs):
